@@ -263,3 +263,51 @@ func VerifC12_Write() {
 		vAssert(overl, "read served from a write that did not overlap it")
 	}
 }
+
+// verifDedupSequence: caller 0 asks for chunk A and then for chunk B (so that whatever the
+// queue keeps or recycles from the finished request for A meets a request for another ID),
+// caller 1 asks for A concurrently.  Upstream outcomes are solver choices.
+func verifDedupSequence() (*verifRecorder, *verifUpstream) {
+	vPreempt(2)
+	u := &verifUpstream{}
+	q := NewDedupQueue(u)
+	r := &verifRecorder{}
+	a, b := verifID(0), verifID(1)
+	var wg sync.WaitGroup
+	wg.Add(2)
+	go func() {
+		defer wg.Done()
+		r.get(q, a)
+		r.get(q, b)
+	}()
+	go func() {
+		defer wg.Done()
+		r.get(q, a)
+	}()
+	wg.Wait()
+	vCover("all-callers-returned")
+	vAssert(len(r.recs) == 3, "a caller did not return")
+	return r, u
+}
+
+// VerifC12_Sequence: results under the A-then-B sequence come from an overlapping upstream
+// request for the *same* ID.
+func VerifC12_Sequence() {
+	r, u := verifDedupSequence()
+	verifCheckDedup(r, u)
+}
+
+// VerifC03_Dedup: contract V through the de-duplication queue - whatever a caller is handed
+// for an ID hashes to that ID (the upstream here only returns valid chunks).
+func VerifC03_Dedup() {
+	r, _ := verifDedupSequence()
+	for _, rec := range r.recs {
+		if rec.err == nil {
+			vAssert(rec.chunk != nil, "nil chunk with nil error")
+			if rec.chunk != nil {
+				d, _ := rec.chunk.Data()
+				vAssert(len(d) == 2 && d[0] == rec.id[0], "the de-duplication queue handed out another chunk's data for the requested ID")
+			}
+		}
+	}
+}
